@@ -88,3 +88,86 @@ def run_child(fn, args=(), shims=(), timeout=None):
     if msg[0] != "ok":
         raise HarnessError(f"child failed: {msg[1]}: {msg[2]}\n{msg[3] if len(msg) > 3 else ''}")
     return msg[1]
+
+
+# ----------------------------------------------------------------------------- second interpreter
+
+class AltZygote:
+    """A second pristine interpreter exec'ed under another PYTHONHASHSEED.  It only forks:
+    each request is served by run_child() inside it, i.e. by a grandchild with no past."""
+
+    def __init__(self, hashseed):
+        import subprocess
+        env = dict(os.environ)
+        env["PYTHONHASHSEED"] = str(hashseed)
+        env["RUST_BACKTRACE"] = "0"
+        here = os.path.dirname(os.path.dirname(os.path.abspath(__file__)))
+        self.p = subprocess.Popen([sys.executable, "-W", "ignore::SyntaxWarning", os.path.join(here, "run.py"), "zygote"],
+                                  stdin=subprocess.PIPE, stdout=subprocess.PIPE, env=env, text=True, bufsize=1)
+        self.hashseed = hashseed
+
+    def call(self, fn_name, args, shims=(), timeout=None):
+        timeout = CHILD_TIMEOUT if timeout is None else timeout
+        req = json.dumps({"fn": fn_name, "args": args, "shims": list(shims), "timeout": timeout})
+        try:
+            self.p.stdin.write(req + "\n")
+            self.p.stdin.flush()
+        except Exception as e:
+            raise HarnessError(f"alt zygote is gone: {e}")
+        rl, _, _ = select.select([self.p.stdout], [], [], timeout + 15)
+        if not rl:
+            self.close()
+            raise ChildTimeout("alt zygote did not answer in time")
+        line = self.p.stdout.readline()
+        if not line:
+            raise HarnessError("alt zygote closed its pipe")
+        msg = json.loads(line)
+        if msg[0] != "ok":
+            raise HarnessError(f"alt zygote: {msg[1]}")
+        return msg[1]
+
+    def close(self):
+        try:
+            self.p.kill()
+            self.p.wait(timeout=5)
+        except Exception:
+            pass
+
+
+_ALT = {}
+
+
+def alt_zygote(hashseed):
+    z = _ALT.get(hashseed)
+    if z is None or z.p.poll() is not None:
+        z = _ALT[hashseed] = AltZygote(hashseed)
+    return z
+
+
+def zygote_main():
+    """serve requests on stdin/stdout; never runs library code itself"""
+    from . import engine
+    table = {"child_all": engine.child_all, "child_last": engine.child_last}
+    import pss.worker  # noqa – import the library, do nothing else
+    for line in sys.stdin:
+        line = line.strip()
+        if not line:
+            continue
+        try:
+            req = json.loads(line)
+            fn = table[req["fn"]]
+            a = req["args"]
+            if req["fn"] == "child_all":
+                res = run_child(_child_all_kw, (a[0], a[1]), shims=req.get("shims", ()), timeout=req.get("timeout"))
+            else:
+                res = run_child(fn, tuple(a), shims=req.get("shims", ()), timeout=req.get("timeout"))
+            out = ["ok", res]
+        except Exception as e:  # noqa
+            out = ["err", f"{type(e).__name__}: {e}"[-1500:]]
+        sys.stdout.write(json.dumps(out, separators=(",", ":")) + "\n")
+        sys.stdout.flush()
+
+
+def _child_all_kw(ops, kw):
+    from . import engine
+    return engine.child_all(ops, **kw)
